@@ -133,4 +133,7 @@ def build_props(PROPS):
         level_text='RFC6531_FOLLOW_RFC20: is_6531_local built with the option is proved equal to the automaton whose atom alphabet lacks # ^ ` { | } ~, and a lemma proves that this automaton differs from the default one exactly on those seven characters outside quotes. LABELS_ALLOW_UNDERSCORE: is_ascii_domain built with the option is proved equal to the host automaton with "_" as a letter. "Nothing else changes": the option macros occur in no other source file, and the Makefile defaults them OFF / maps ON to -D (text scan).',
         level_note='RFC6531_FOLLOW_RFC5322 (mode 6531 judges ASCII local parts as mode 5322) is NOT covered: no job proves the scanner built with that option against the 5322 automaton. The option / Makefile facts are text scans, not proof obligations.',
         trusted_base=TB_COMMON, technique=TECH)
-    NOT_APPLICABLE['C20'] = 'not built yet: the CLI (bin/main.c, bin/main.h, bin/utf8_decode.c) has no contract job so far; nothing is claimed'
+    NOT_APPLICABLE['C20'] = ('not claimed: only sanitize_utf8 (bin/main.h) has a discharged contract (job cli_sanitize: no write outside the buffer for any text, clean text echoed unchanged); '
+                            'the getline loop of parse_file (bin/main.c) could not be brought within reach - the loop-contract job with stdio/getline/strlen models and a bounded stand-in (2 lines x 4 bytes) both exhausted 12-24 GB '
+                            '(design-probes/cli_parse_file_attempt.c). Without parse_file neither "one verdict per line" nor "agrees with the library" is decided, so nothing is claimed. '
+                            'Three CLI defects found by running the tool were repaired (known_findings.json).')
